@@ -14,7 +14,8 @@ LEVEL = "exploration"
 RULE = ("fixed set 1..40 atoms, mobile 1..25 atoms, coordinates in +-5 nm (random floats, clustered so that several "
         "fixed atoms share a nearest mobile atom); restraint classes empty / partial / partial with duplicated fixed "
         "atoms / every fixed atom restrained / every fixed atom restrained with duplicates; calculator built with one "
-        "mobile configuration and evaluated on two others. Non-trivial = penalty exponent >= 1 and evaluation array != "
+        "mobile configuration and evaluated on two others; every array handed over C-contiguous, Fortran-ordered, as a "
+        "strided view, as a transposed (3,N) array or read-only. Non-trivial = penalty exponent >= 1 and evaluation array != "
         "construction array. Distinct = sha1 of the case JSON.")
 ASSUMPTIONS = [
     "ties (two mobile atoms equally near a fixed atom to 1e-9 relative) are detected; the value is then only required "
@@ -72,7 +73,8 @@ def case_strategy(draw):
              mob.tolist()]
     return {"fixed": fixed.tolist(), "built_with": mob.tolist(), "restr": restr, "rkind": kind,
             "layout": layout, "evals": evals, "seed": draw(gen.SEEDS),
-            "as_tuples": draw(st.booleans())}
+            "as_tuples": draw(st.booleans()),
+            "mem": [draw(st.sampled_from(gen.ARRAY_LAYOUTS)) for _ in range(5)]}
 
 
 def _expect(fixed, mobile, restr):
@@ -99,8 +101,9 @@ def _compare(clause, got, fixed, mobile, restr, label):
 
 
 def check(case):
-    fixed = np.array(case["fixed"], float)
-    built = np.array(case["built_with"], float)
+    mem = case.get("mem", ["C"] * 5)
+    fixed = gen.as_layout(case["fixed"], mem[0])
+    built = gen.as_layout(case["built_with"], mem[1])
     restr = [tuple(r) for r in case["restr"]] if case["as_tuples"] else [list(r) for r in case["restr"]]
     rlist = [tuple(r) for r in case["restr"]]
     fixed_snapshot = fixed.copy()
@@ -108,10 +111,10 @@ def check(case):
     ks = []
     any_tie = False
     for idx, ev in enumerate(case["evals"]):
-        mob = np.array(ev, float)
+        mob = gen.as_layout(ev, mem[2 + idx])
         mob_snapshot = mob.copy()
         got = lib("evaluate", calc, mob)
-        k, tie = _compare("definition", got, case["fixed"], ev, rlist, "%s eval%d" % (case["rkind"], idx))
+        k, tie = _compare("definition", got, case["fixed"], ev, rlist, "%s eval%d (arrays %s)" % (case["rkind"], idx, "/".join(mem)))
         ks.append(k)
         any_tie |= tie
         if not np.array_equal(mob, mob_snapshot) or not np.array_equal(fixed, fixed_snapshot):
@@ -139,7 +142,7 @@ def check(case):
             raise PropertyViolation("relabel-invariance", "value %r becomes %r after consistent relabelling" % (base, perm))
     path = "path:none" if not rlist else ("path:all" if len(set(i for i, _ in rlist)) == len(fixed) else "path:some")
     classes = ["restr:" + case["rkind"], path, "layout:" + case["layout"],
-               "k>=1" if max(ks) >= 1 else "k=0"]
+               "k>=1" if max(ks) >= 1 else "k=0", "mem:" + ("C" if set(mem) <= {"C"} else "mixed")]
     if any_tie:
         classes.append("tie")
     return {"nontrivial": max(ks[:2]) >= 1, "classes": classes,
